@@ -1,5 +1,6 @@
 CONSTANTS
   Cases <- TheCases
+  RCases <- TheRCases
   Around <- TheAround
 INIT Init
 NEXT Next
